@@ -62,6 +62,7 @@ struct Limits {
     unsigned max_depth = 1000;       // histories longer than this are not extended
     uint64_t max_states = 50000000;  // safety cap (reported as incomplete when hit)
     double deadline_s = 1e9;
+    double hang_s = 10;  // a single transition (replay + apply + reads) taking longer than this is a hang
 };
 
 struct Stats {
@@ -81,6 +82,7 @@ struct ViolationRec {
 
 // shared with the parent for crash attribution
 struct Progress {
+    std::atomic<uint64_t> tick;  // bumped at every replay / transition: the parent's hang watchdog
     std::atomic<int> active;
     std::atomic<int> len;
     uint16_t hist[4096];
@@ -131,6 +133,7 @@ inline void explore(Sys &sys, const Limits &lim, Stats &st, std::map<std::string
     };
     auto publish = [&](const Hist &h, const char *phase) {
         if (!pg) return;
+        pg->tick.fetch_add(1);
         pg->active.store(0);
         int n = (int)std::min<size_t>(h.size(), 4096);
         for (int i = 0; i < n; ++i) pg->hist[i] = h[i];
@@ -499,8 +502,9 @@ inline int main_driver(int argc, char **argv, const char *prop, std::function<vo
         std::set<std::string> skip;
         std::map<std::string, ViolationRec> crash_viol;
         unsigned crashes = 0;
-        bool done = false, failed = false;
-        double t1 = 0;
+        bool done = false, failed = false, hung = false;
+        double t1 = 0, last_change = 0;
+        uint64_t last_tick = ~0ull;
     };
     std::vector<JState> js(NJ);
     std::vector<StageOut> outs(NJ);
@@ -523,6 +527,8 @@ inline int main_driver(int argc, char **argv, const char *prop, std::function<vo
             _exit(0);
         }
         js[k].pid = p;
+        js[k].last_change = vf::now_s();
+        js[k].last_tick = ~0ull;
     };
     size_t running = 0, next = 0;
     size_t maxpar = (size_t)std::max(1, o.jobs);
@@ -539,7 +545,25 @@ inline int main_driver(int argc, char **argv, const char *prop, std::function<vo
         }
         if (running == 0) break;
         int status = 0;
-        pid_t p = waitpid(-1, &status, 0);
+        pid_t p = waitpid(-1, &status, WNOHANG);
+        if (p == 0) {
+            double t = vf::now_s();
+            for (size_t i = 0; i < NJ; ++i) {
+                if (js[i].done || !js[i].pid) continue;
+                uint64_t tk = pg[i].tick.load();
+                if (tk != js[i].last_tick) {
+                    js[i].last_tick = tk;
+                    js[i].last_change = t;
+                } else if (pg[i].active.load() && t - js[i].last_change > jobs[i].lim.hang_s) {
+                    js[i].hung = true;
+                    kill(js[i].pid, SIGKILL);
+                    js[i].last_change = t;
+                }
+            }
+            struct timespec ts = {0, 20 * 1000 * 1000};
+            nanosleep(&ts, nullptr);
+            continue;
+        }
         if (p < 0) {
             if (errno == EINTR) continue;
             break;
@@ -568,10 +592,15 @@ inline int main_driver(int argc, char **argv, const char *prop, std::function<vo
         ViolationRec r;
         r.hist = h;
         std::string opn = h.empty() ? std::string("(init)") : jobs[k].describe(Hist(1, h.back()));
-        if (WIFSIGNALED(status)) r.sig = strf("crash:signal=%d:during:%s", WTERMSIG(status), opn.c_str());
+        bool hung = js[k].hung;
+        js[k].hung = false;
+        if (hung) r.sig = strf("hang:during:%s", opn.c_str());
+        else if (WIFSIGNALED(status)) r.sig = strf("crash:signal=%d:during:%s", WTERMSIG(status), opn.c_str());
         else r.sig = strf("crash:exit=%d:during:%s", WEXITSTATUS(status), opn.c_str());
-        r.detail = strf("exploration process died (%s) while in phase '%s' of history [%s]",
-                        WIFSIGNALED(status) ? strsignal(WTERMSIG(status)) : "exit", pg[k].phase, jobs[k].describe(h).c_str());
+        r.detail = strf("exploration process %s while in phase '%s' of history [%s]",
+                        hung ? "made no progress within the hang limit and was killed"
+                             : (WIFSIGNALED(status) ? strsignal(WTERMSIG(status)) : "exited abnormally"),
+                        pg[k].phase, jobs[k].describe(h).c_str());
         if (js[k].crash_viol.count(r.sig)) js[k].crash_viol[r.sig].count++;
         else js[k].crash_viol[r.sig] = r;
         js[k].skip.insert(hist_str(h));
